@@ -168,15 +168,16 @@ theorem labels_eq (d : Defs) (vis : List (String × Uid)) (h : ∀ e ∈ vis, d.
     (vis.map (·.2)).map d.name = vis.map (·.1) := by
   rw [List.map_map]; exact List.map_congr_left (fun e he => h e he)
 
-/-- **refinement for the union of two pipelines of the row-level fragment** -/
-theorem sql_refines_spec_union {lc rc : Ast} {scl scr : List Uid} (hl : Frag lc scl) (hr : Frag rc scr) (db : DB) (i : NodeId) (d : Bool)
+/-- **refinement for the union of two base pipelines** (`C01.Base`: the row-level fragment, joins of source tables followed by
+    row-level verbs, …) -/
+theorem sql_refines_spec_union {lc rc : Ast} {scl scr : List Uid} (hl : Base lc scl) (hr : Base rc scr) (db : DB) (i : NodeId) (d : Bool)
     (hnl : ((Spec.run db lc).visible.map (·.1)).Nodup) (hnr : ((Spec.run db rc).visible.map (·.1)).Nodup)
     (hsame : ∀ e ∈ (Spec.run db lc).visible, ((Spec.run db rc).visible.find? (·.1 == e.1)).isSome = true)
     (needed : Needed) :
     ∃ r n', compile (.union i lc rc d) needed = .ok (r, n') ∧ Sql.run db r = (Spec.run db (.union i lc rc d)).frame := by
-  obtain ⟨l, n1, hcl, invl⟩ := frag_refines hl db needed
-  obtain ⟨r, n2, hcr, invr⟩ := frag_refines hr db n1
-  have hpbr := frag_partitionBy hr _ r n2 hcr
+  obtain ⟨l, n1, hcl, invl⟩ := hl.ref db needed
+  obtain ⟨r, n2, hcr, invr⟩ := hr.ref db n1
+  have hpbr := hr.pb _ r n2 hcr
   have hln : l.query.select.map l.defs.name = (Spec.run db lc).visible.map (·.1) := by
     rw [invl.hsel]; exact labels_eq _ _ invl.hname
   have hrn : r.query.select.map r.defs.name = (Spec.run db rc).visible.map (·.1) := by
